@@ -880,24 +880,23 @@ def _t_ac(mode, shape="full"):
         a = {"genes": None, "feature_collections": None, "variant_collections": None, "start": None, "end": None,
              "qualifiers": None, "parent": p}
         seed = rng.randint(0, 10 ** 6)
+        lo, hi = (p[3] + 1, p[4] - 1) if p and p[0] == "chunk" else (0, L)
         if shape in ("full", "genes", "bounds"):
             g = _t_gene("none")(random.Random(seed))
             g["parent"] = p
             for t in g["transcripts"]:
                 t["parent"] = p
-            lo = (p[3] + 1) if p and p[0] == "chunk" else 0
-            if p and p[0] == "chunk" and (g["transcripts"][0]["exon_starts"][0] < lo or
-                                          max(t["exon_ends"][-1] for t in g["transcripts"]) > p[4] - 1):
+            if min(t["exon_starts"][0] for t in g["transcripts"]) < lo or max(t["exon_ends"][-1] for t in g["transcripts"]) > hi:
                 g["transcripts"] = [put(g["transcripts"][0], exon_starts=[lo + 2], exon_ends=[lo + 14],
                                         cds_starts=None, cds_ends=None, cds_frames=None)]
             a["genes"] = [g]
         if shape in ("full", "fcs"):
             c = _t_fc("none")(random.Random(seed + 1))
-            lo = (p[3] + 1) if p and p[0] == "chunk" else 0
             c["parent"] = p
             for t in c["feature_intervals"]:
                 t["parent"] = p
-            if p and p[0] == "chunk":
+            if min(t["interval_starts"][0] for t in c["feature_intervals"]) < lo or \
+                    max(t["interval_ends"][-1] for t in c["feature_intervals"]) > hi:
                 c["feature_intervals"] = [put(c["feature_intervals"][0], interval_starts=[lo + 3], interval_ends=[lo + 9])]
             a["feature_collections"] = [c]
         if shape == "bounds":
@@ -1655,6 +1654,52 @@ def call_object(cls_name, base_id):
     return spec.build(spec.base(base_id))
 
 
+def must_refuse(o, method, argid):
+    """argument tuples that the documentation of the Location classes says are refused: answering them is a violation"""
+    if not isinstance(o, (SingleInterval, CompoundInterval)) or "=" not in argid or method.startswith(("sym:", "then:")):
+        return False
+    kw = dict(kv.split("=", 1) for kv in argid.split(","))
+    n = len(o)
+    if method in ("extend_absolute", "extend_relative"):
+        return any(_int_sym(o, v) < 0 for v in kw.values())
+    if method == "relative_to_parent_pos":
+        return not 0 <= _int_sym(o, kw["relative_pos"]) < n
+    if method == "parent_to_relative_pos":
+        p = _int_sym(o, kw["parent_pos"])
+        return not any(s <= p < e for s, e in ([(o.start, o.end)] if isinstance(o, SingleInterval) else zip(o._starts, o._ends)))
+    if method == "relative_interval_to_parent_location":
+        a, b = _int_sym(o, kw["relative_start"]), _int_sym(o, kw["relative_end"])
+        return not 0 <= a <= b <= n
+    if method == "shift_position":
+        return o.start + _int_sym(o, kw["shift"]) < 0
+    if method == "scan_windows":
+        w, st, sp = (_int_sym(o, kw[k]) for k in ("window_size", "step_size", "start_pos"))
+        return not (0 <= sp < n and w >= 1 and st >= 1 and sp + w <= n)
+    return False
+
+
+def must_answer(o, method, argid):
+    """argument tuples inside the documented domain: refusing them is a violation (regressions F-C19a / F-C19b)"""
+    if isinstance(o, (SingleInterval, CompoundInterval)) and "=" in argid and not method.startswith(("sym:", "then:")):
+        if o.strand not in (Strand.PLUS, Strand.MINUS) or len(o) == 0:
+            return False
+        kw = dict(kv.split("=", 1) for kv in argid.split(","))
+        n = len(o)
+        if method == "relative_interval_to_parent_location":
+            return 0 <= _int_sym(o, kw["relative_start"]) <= _int_sym(o, kw["relative_end"]) <= n
+        if method == "relative_to_parent_pos":
+            return 0 <= _int_sym(o, kw["relative_pos"]) < n
+        return False
+    if isinstance(o, (SingleInterval, CompoundInterval)) and method in ("gap_list", "gaps_location", "optimize_blocks",
+                                                                        "optimize_and_combine_blocks", "merge_overlapping"):
+        # (gap_list of an UNSTRANDED multi-block location raises InvalidStrandException: a documented class, C02's subject)
+        return o.strand in (Strand.PLUS, Strand.MINUS) or method not in ("gap_list", "gaps_location")
+    if isinstance(o, TranscriptInterval) and method in ("get_5p_interval", "get_3p_interval"):
+        return o.cds is not None and not isinstance(o.chunk_relative_location, W._EmptyLocation) and \
+            not isinstance(o.cds.chunk_relative_location, W._EmptyLocation)
+    return False
+
+
 def impl_call(t):
     _, cls_name, base_id, method, argid = t
 
@@ -1666,8 +1711,15 @@ def impl_call(t):
             return "ok illformed mismatched-parent-refused-in-one-operand-order-only"
         if isinstance(r, _Verbatim):
             return r.r
+        if inspect.isgenerator(r) or hasattr(r, "__next__"):
+            r = list(r)
+        if must_refuse(o, method, argid):
+            return "ok illformed accepted-invalid-argument"
         return judge(r)
-    return guarded(go)
+    ans = guarded(go)
+    if ans.startswith("err ") and guarded(lambda: "yes" if must_answer(call_object(cls_name, base_id), method, argid) else "no") == "yes":
+        return "ok illformed refused-valid-argument " + ans.split()[1]
+    return ans
 
 
 # ----------------------------------------------------------------------------------------------
